@@ -141,6 +141,11 @@ def Step.cls {α} : Step α → Cls
   | .recur => .recur
   | _ => .multi
 
+/-- the child steps of C01: key, index, slice, comma list, the three wildcards -/
+def Step.isChild {α} : Step α → Bool
+  | .key _ | .idx _ | .slice .. | .tuple _ | .keyWc | .idxWc | .gwc => true
+  | _ => false
+
 variable {α : Type}
 
 def dictItems (es : List (String × α)) : List (Name × α) := es.map fun (k, x) => (Name.key k, x)
